@@ -538,6 +538,52 @@ def run(lines, out, args):
                         got = "FAIL: a complete %s ran while changed() was reading the base generations (read #%d), then the base was changed; later calls keep answering %r, the base holds %r" % (ep, skip + 1, later, new)
                     if got != "ok":
                         break
+            elif scen == "notifyhook":
+                # a dependent of an interface S (anything may `S.subscribe()`: a registry of another kind, a persistence layer) that,
+                # from INSIDE the notification of a re-basing of S, asks the registry about a sub-interface D of S that has not been
+                # recomputed yet.  Whatever that nested call answers, once the assignment `S.__bases__ = …` has returned every call
+                # answers what the registrations say for the new hierarchy
+                Reg = A.VerifyingAdapterRegistry if flavour == "verifying" else A.AdapterRegistry
+                reg = Reg()
+                IBn = InterfaceClass("IBn", (Interface,), __module__="zi.gen")
+                ISn = InterfaceClass("ISn", (Interface,), __module__="zi.gen")
+                reg.register((IBn,), IP, "", fac1)
+                reg.subscribe((IBn,), IP, fac1)
+                seen = []
+
+                def askn(spec, o):
+                    if ep == "lookup":
+                        return reg.lookup((spec,), IP, "")
+                    if ep == "lookup1":
+                        return reg.lookup1(spec, IP, "")
+                    if ep == "lookupAll":
+                        return tuple(sorted(reg.lookupAll((spec,), IP)))
+                    if ep == "subscriptions":
+                        return tuple(reg.subscriptions((spec,), IP))
+                    if ep == "queryAdapter":
+                        return reg.queryAdapter(o, IP, "")
+                    if ep == "adapter_hook":
+                        return reg.adapter_hook(IP, o, "")
+                    return reg.queryMultiAdapter((o,), IP, "")
+                obS = implementer(ISn)(type("ObS", (), {}))()
+                askn(ISn, obS)                         # the lookup object watches S (and is told first)
+
+                class Dep:
+                    def changed(self, originally_changed):
+                        seen.append(askn(IDn, obD))
+                dep = Dep()
+                ISn.subscribe(dep)
+                IDn = InterfaceClass("IDn", (ISn,), __module__="zi.gen")
+                obD = implementer(IDn)(type("ObD", (), {}))()
+                ISn.__bases__ = (IBn,)
+                later = [askn(IDn, obD) for _ in range(2)]
+                want = expect(ep, fac1)
+                if not seen:
+                    got = "FAIL: harness: the dependent was not notified"
+                elif any(x != want for x in later):
+                    got = ("FAIL: after `S.__bases__ = (B,)` has returned, %s for the sub-interface D of S answers %r; the registrations say %r "
+                           "(a call made from inside the notification had answered %r and that is still cached)" % (ep, later, want, seen))
+                ISn.unsubscribe(dep)
             elif scen == "delhook":
                 # a DESTRUCTOR as the re-entry point: a factory that only the lookup's cache keeps alive (it was replaced in the
                 # base registry) dies while the caches are being dropped, and its __del__ asks the registry about ANOTHER key whose
@@ -857,6 +903,54 @@ def run(lines, out, args):
                             ep, k.__name__, first, old, new)
                     elif any(x != new for x in later):
                         got = "FAIL: after the mutation %s answers %r, the registry holds %r" % (ep, later, new)
+            elif scen == "midrebase":
+                # while the uncached lookup walks the registration tables (storage hook on `.get`; another thread in general), the
+                # REQUIRED interface -- one the lookup object has never been asked about, so it is not watching it yet -- is re-based.
+                # The interrupted call may answer for the old or the new hierarchy; every later call answers for the new one
+                IA2 = InterfaceClass("IA2", (Interface,), __module__="zi.gen")
+                IB2 = InterfaceClass("IB2", (Interface,), __module__="zi.gen")
+                ISm = InterfaceClass("ISm", (IA2,), __module__="zi.gen")
+                state = {"armed": False}
+
+                class HookDict(dict):
+                    def get(self, k, d=None):
+                        if state["armed"]:
+                            state["armed"] = False
+                            ISm.__bases__ = (IB2,)
+                        return dict.get(self, k, d)
+                reg = mkreg(flavour, lambda kind, lk, compute: compute(), HookDict)
+                fa, fb = mkfac("for-IA2"), mkfac("for-IB2")
+                reg.register((IA2,), IP, "", fa)
+                reg.register((IB2,), IP, "", fb)
+                reg.subscribe((IA2,), IP, fa)
+                reg.subscribe((IB2,), IP, fb)
+                obm = implementer(ISm)(type("ObM", (), {}))()
+
+                def askm():
+                    if ep == "lookup":
+                        return reg.lookup((ISm,), IP, "")
+                    if ep == "lookup1":
+                        return reg.lookup1(ISm, IP, "")
+                    if ep == "lookupAll":
+                        return tuple(sorted(reg.lookupAll((ISm,), IP)))
+                    if ep == "subscriptions":
+                        return tuple(reg.subscriptions((ISm,), IP))
+                    if ep == "queryAdapter":
+                        return reg.queryAdapter(obm, IP, "")
+                    if ep == "adapter_hook":
+                        return reg.adapter_hook(IP, obm, "")
+                    return reg.queryMultiAdapter((obm,), IP, "")
+                state["armed"] = True
+                first = askm()
+                later = [askm() for _ in range(2)]
+                old, new = expect(ep, fa), expect(ep, fb)
+                if state["armed"]:
+                    got = "FAIL: harness: the mapping hook never fired"
+                elif first not in (old, new):
+                    got = "FAIL: the %s interrupted by a re-basing of its required interface returned %r, neither %r nor %r" % (ep, first, old, new)
+                elif any(x != new for x in later):
+                    got = ("FAIL: the required interface was re-based while %s walked the tables (the lookup object was not watching it yet); "
+                           "later calls keep answering %r, the registrations say %r for the current hierarchy" % (ep, later, new))
             elif scen == "shrink":
                 state = {"armed": False}
                 reg = mkreg(flavour, lambda kind, lk, compute: compute())
